@@ -67,6 +67,13 @@ func (r *raftState) open(s *store, ln net.Listener) error {
 	// Since we actually never call `removePeer` this is safe.
 	// If in the future we decide to call remove peer we have to re-evaluate how to handle this
 	config.ShutdownOnRemove = false
+	if verifhook.Enabled {
+		// raft's defaults (a snapshot every 8192 entries, 10240 trailing
+		// entries kept) are out of reach of a simulated history
+		config.SnapshotThreshold = uint64(verifhook.Knob("meta.raft.snapshot_threshold", int64(config.SnapshotThreshold)))
+		config.TrailingLogs = uint64(verifhook.Knob("meta.raft.trailing_logs", int64(config.TrailingLogs)))
+		config.SnapshotInterval = time.Duration(verifhook.Knob("meta.raft.snapshot_interval", int64(config.SnapshotInterval)))
+	}
 
 	// Build raft layer to multiplex listener.
 	tlsC := r.config.TLSClientConfig()
